@@ -81,6 +81,8 @@ def draw_scenario(cs, cfg):
     sc["only_x0_grad"] = cs.bool("only_x0_grad", 1, 12)
     # the backward pass runs while the objects hold other tensors than during the forward pass
     sc["bwd_under_subst"] = cs.bool("bwd_under_subst", 1, 4)
+    # the same call once more with grad recording off and the debug-mode pre-flight checks on
+    sc["nograd_debug"] = cs.bool("nograd_debug", 1, 6)
     # where the parameters live
     sc["fhold"] = ["object", "explicit"][cs.weighted([3, 2], "fhold")]
     sc["phold"] = ["object", "explicit", "same_object"][cs.weighted([2, 2, 2], "phold")]
@@ -570,6 +572,19 @@ def run(cs, cfg):
                         g2r = torch.autograd.grad(lr, leaves, allow_unused=True, retain_graph=True)
                         judge_grads(g2x, g2r, leaves, GTOL * 10, "gradient_second_order", V, env)
                         cnt("reach.second_order_judged")
+    if sc.get("nograd_debug"):
+        from xitorch.debug.modes import enable_debug
+        cnt("reach.no_grad_with_debug_mode")
+        try:
+            with warnings.catch_warnings():
+                warnings.simplefilter("ignore")
+                with enable_debug(), torch.no_grad():
+                    r2 = flat(call_mcquad(env, sc, fk)).detach()
+            if r2.shape != rf.shape or not torch.allclose(r2, rf.detach(), rtol=1e-12, atol=1e-12):
+                V("value", "the same call under torch.no_grad() with debug mode on gives a different value")
+        except Exception as e:
+            V("forward_raises", "mcquad under torch.no_grad() with debug mode on raised %s: %s" %
+              (type(e).__name__, str(e)[:200]))
     # ---- the user's objects are untouched (C10's I1, cheap to keep here)
     for A, sn in zip(env.actors, snaps):
         for inv, detail in compare(sn, A):
